@@ -360,6 +360,8 @@ def file_pool(ctx, rng):
         pool.append((name, txt, "generated"))
     # a translation unit without any function definition: the run still succeeds and saves the (statistics-only) result
     pool.append(("nofunc", "int glob = 3;\ntypedef int T;\nint proto(int x);\n", "generated"))
+    # names a preprocessor would only touch if somebody defined them: true / false / bool used as plain identifiers
+    pool.append(("boolnames", "int f(int x, int flag, int bool)\n{\n  flag = true;\n  while (true)\n  {\n    x = x + flag;\n    flag = false;\n  }\n  bool = x * flag;\n}\n", "generated"))
     for rel in (CORPUS_THOROUGH if ctx.thorough else CORPUS_QUICK):
         p = os.path.join(vlib.REPO, "c_files", rel)
         with open(p) as fh:
